@@ -309,7 +309,7 @@ def grammar_job(args):
     """explore one grammar for one property; returns a summary dict (picklable)"""
     g, prop, N, opts = args
     t0 = time.time()
-    out = dict(name=g.name, family=g.meta.get('family'), accepted=False, reason=None, paths=0, violations=[], inconclusive=[],
+    out = dict(name=g.name, family=g.meta.get('family'), max_tokens=N, accepted=False, reason=None, paths=0, violations=[], inconclusive=[],
                validated=0, mismatches=[], samples=[], wall=0.0, states=0, forks=0, text=g.text(),
                stats=dict(explored_paths=0, reused_paths=0, steps=0, queries=0, solver_time=0.0, fns=set(), models=set()),
                prop_queries=0, prop_time=0.0, classes=0)
